@@ -31,6 +31,7 @@ WEAK = [
     ("Weak_PruneDropsLastChanged", "store", None),
     ("Weak_PruneDropsCheckpoint", "store", None),
     ("Weak_NoCheckpointRecord", "store", None),
+    ("Weak_RecoveryCopyDropsValUpdates", "store", None),
 ]
 
 REAL_CKPT = 100000
@@ -96,16 +97,16 @@ def _hist_of_behaviour(states):
     return {"init": _changes(a0["batch"]), "ops": ops}
 
 
-def _store_sched(acts, genesis, ih, ckpt):
+def _store_sched(acts, genesis, ih, ckpt, discard=True):
     off = REAL_CKPT - ckpt if ckpt <= 100 else 0
     ops = []
     for a in acts[1:]:
         if a["name"] == "Apply":
-            ops.append({"op": "Apply", "batch": _changes(a["batch"]), "to": 0})
+            ops.append({"op": "Apply", "batch": _changes(a["batch"]), "to": 0, "crash": bool(a.get("crash", False))})
         elif a["name"] == "Prune":
-            ops.append({"op": "Prune", "batch": [], "to": a["to"] + off})
+            ops.append({"op": "Prune", "batch": [], "to": a["to"] + off, "crash": False})
     mode = "bootstrap" if acts[0]["name"] == "Bootstrap" else "genesis"
-    return {"genesis": genesis, "ih": ih + off, "mode": mode, "ops": ops}
+    return {"genesis": genesis, "ih": ih + off, "mode": mode, "discard": discard, "ops": ops}
 
 
 GENESIS = {1: [(1, 10), (2, 10), (3, 10)], 2: [(2, 5), (1, 3), (3, 1)], 3: [(2, 1)]}
@@ -196,6 +197,8 @@ def run(ctx):
         deeper run with VIEW (no dump) and simulated behaviours"""
         runs, scheds = [], []
         sc = dict(sc)
+        sc.setdefault("Discard", k % 2 == 0)      # StoreOptions.DiscardABCIResponses of the replayed store
+        discard = sc["Discard"]
         gb = sc.pop("GraphBlocks", sc["MaxBlocks"])
         gen = [{"a": a, "p": p} for a, p in GENESIS[sc["Scenario"]]]
         cfg_g = core.cfg_variant(ctx, "C08_store.cfg", "C08_store_graph%d.cfg" % k, dict(sc, MaxBlocks=gb), drop_view=True)
@@ -207,7 +210,7 @@ def run(ctx):
         os.remove(dot)
         for nodes in core.graph_schedules(g):
             acts = [to_json(g.nodes[n]["act"]) for n in nodes]
-            scheds.append(_store_sched(acts, gen, sc["InitialHeight"], sc["Checkpoint"]))
+            scheds.append(_store_sched(acts, gen, sc["InitialHeight"], sc["Checkpoint"], discard))
         if sc["MaxBlocks"] > gb:
             cfg_s = core.cfg_variant(ctx, "C08_store.cfg", "C08_store_run%d.cfg" % k, sc)
             runs.append(ctx.tlc("C08_store", cfg_s, must_pass=True, timeout=1500, workers=3, label="store_deep_s%d" % k))
@@ -226,7 +229,7 @@ def run(ctx):
                     os.remove(os.path.join(d, fn))
                     acts = [to_json(st["act"]) for _h, st in beh]
                     if acts:
-                        scheds.append(_store_sched(acts, gen, sc["InitialHeight"], sc["Checkpoint"]))
+                        scheds.append(_store_sched(acts, gen, sc["InitialHeight"], sc["Checkpoint"], discard))
         return runs, scheds, len(g.nodes)
 
     f_store = [tpool.submit(store_job, k, sc) for k, sc in enumerate(T["store"])]
@@ -404,6 +407,10 @@ def run(ctx):
         "division): acceptance, members, powers, the priorities after the update (newcomers at -(T + floor(T/8)), rescale, "
         "centre), order, limits, window, clipping, atomicity, order-independence and the rotation incl. the proposer "
         "against the reference; only the code-transcription (level 1) comparison is not made at that scale",
+        "every block of a store history goes through the real SaveABCIResponses; the crash-recovery copy is read back "
+        "with LoadLastABCIResponse after every save (both StoreOptions.DiscardABCIResponses settings) and, on 'crash' "
+        "steps (node dies between the app's Commit and store.Save), the state is rebuilt from that copy with the real "
+        "updateState as consensus/replay.go does; the Handshaker/mock-app plumbing itself is not executed",
         "the spec models LoadValidators as repaired by proposed-fixes/C08-loadvalidators-per-height-increment.diff "
         "(one IncrementProposerPriority(1) per block); the code as found is the switch Weak_LoadSingleIncrement",
         "the model's checkpoint interval is 3..5; the real interval 100000 is exercised through chains whose "
@@ -446,12 +453,13 @@ def replay(ctx, path):
     if kind == "store":
         reset = prefix[0]
         first = prefix[1]
-        sched = {"genesis": first.get("genesis", []), "ih": reset["ih"], "mode": reset["mode"], "ops": []}
+        sched = {"genesis": first.get("genesis", []), "ih": reset["ih"], "mode": reset["mode"],
+                 "discard": bool(reset.get("discard", False)), "ops": []}
         if reset["mode"] == "bootstrap":
             raise Undecided("bootstrap runs are replayed by re-running the seeded driver: VERIF_SEED=%s" % rep.get("seed"))
         for r in prefix[2:]:
             if r["ev"] == "Apply":
-                sched["ops"].append({"op": "Apply", "batch": r["batch"], "to": 0})
+                sched["ops"].append({"op": "Apply", "batch": r["batch"], "to": 0, "crash": bool(r.get("crash", False))})
             elif r["ev"] == "Prune":
                 sched["ops"].append({"op": "Prune", "batch": [], "to": r["to"]})
         binp = ctx.go_build_test("state", ["zz_verif_c08_test.go"], "verif", "state_c08")
